@@ -13,7 +13,56 @@ EXPECTED = [
     ('shortNameLimit', 'Nat', '2'),
     ('parsedFileLimit', 'Nat', '30'),
     ('openedFileLimit', 'Nat', '2000'),
+    ('keywordGotoKinds', 'List Nat', '[0, 1, 2, 3, 4]'),
 ]
+
+#: inspect.Parameter kinds by number
+PARAM_KINDS = {'POSITIONAL_ONLY': 0, 'POSITIONAL_OR_KEYWORD': 1, 'VAR_POSITIONAL': 2, 'KEYWORD_ONLY': 3, 'VAR_KEYWORD': 4}
+
+
+def keyword_goto_kinds(repo):
+    """the kinds of parameters names.py:AbstractTreeName.goto ties a call keyword `f(k=...)` to: read
+    from the `if` inside `for param_name in signature.get_param_names():`.  Recognised conditions:
+    `param_name.string_name == name.value` alone (every kind) or in conjunction with
+    `param_name.get_kind() ==/!=/in/not in Parameter.X / (Parameter.X, ...)`"""
+    src = Src(repo, 'jedi/inference/names.py')
+    goto = src.find('AbstractTreeName.goto')
+    loops = [n for n in ast.walk(goto) if isinstance(n, ast.For) and isinstance(n.target, ast.Name)
+             and n.target.id == 'param_name']
+    lost = 'names.py: AbstractTreeName.goto (named param goto) lost the shape '
+    if len(loops) != 1 or u(loops[0].iter) != 'signature.get_param_names()':
+        raise TieBroken(lost + '`for param_name in signature.get_param_names():`',
+                        repr([u(l.iter) for l in loops]))
+    body = loops[0].body
+    if len(body) != 1 or not isinstance(body[0], ast.If) or body[0].orelse \
+            or [u(s) for s in body[0].body] != ['param_names.append(param_name)']:
+        raise TieBroken(lost + '`if <condition>: param_names.append(param_name)`', repr([u(s) for s in body]))
+    test = body[0].test
+    conj = test.values if isinstance(test, ast.BoolOp) and isinstance(test.op, ast.And) else [test]
+    texts = [u(c) for c in conj]
+    if 'param_name.string_name == name.value' not in texts:
+        raise TieBroken(lost + '`param_name.string_name == name.value`', repr(texts))
+    kinds = set(PARAM_KINDS.values())
+
+    def kind_of(node):
+        if isinstance(node, ast.Attribute) and u(node.value) == 'Parameter' and node.attr in PARAM_KINDS:
+            return PARAM_KINDS[node.attr]
+        raise TieBroken(lost + '(unrecognised parameter kind)', u(node))
+
+    for c in conj:
+        if u(c) == 'param_name.string_name == name.value':
+            continue
+        if not (isinstance(c, ast.Compare) and u(c.left) == 'param_name.get_kind()' and len(c.ops) == 1):
+            raise TieBroken(lost + '(unrecognised conjunct)', u(c))
+        op, right = c.ops[0], c.comparators[0]
+        if isinstance(op, (ast.Eq, ast.NotEq)):
+            sel = {kind_of(right)}
+        elif isinstance(op, (ast.In, ast.NotIn)) and isinstance(right, (ast.Tuple, ast.List, ast.Set)):
+            sel = {kind_of(e) for e in right.elts}
+        else:
+            raise TieBroken(lost + '(unrecognised comparison)', u(c))
+        kinds &= sel if isinstance(op, (ast.Eq, ast.In)) else (set(PARAM_KINDS.values()) - sel)
+    return sorted(kinds), src
 
 
 def limits(repo):
@@ -116,6 +165,12 @@ def _generate(repo, g):
                '_find_global_variables', '_resolve_names', '_dictionarize', 'get_module_contexts_containing_name',
                'search_in_file_ios', '_find_project_modules'):
         g.fp(src, fn)
+    # ---- which kinds of parameters the keyword of a call is tied to
+    kinds, nsrc = keyword_goto_kinds(repo)
+    g.define('keywordGotoKinds', 'List Nat', '[%s]' % ', '.join(map(str, kinds)),
+             'jedi/inference/names.py:AbstractTreeName.goto (named param goto: kinds of inspect.Parameter, by number, '
+             'that pass the condition of `for param_name in signature.get_param_names(): if ...`)')
+    g.fp(nsrc, 'AbstractTreeName.goto')
     rsrc = Src(repo, 'jedi/api/refactoring/__init__.py')
     for fn in ('rename', '_calculate_rename'):
         g.fp(rsrc, fn)
